@@ -105,7 +105,7 @@ def run(rep, work, rng, tier):
     (c, _), (m, _), nd = common.correspondence(rep, work, cases, select=sel, label='saved bytes and reloaded object')
     bad = 0; compared = 0; comps = {}
     # C01_decided: on which of the saved objects do the hypotheses of the theorem hold (computed by the extracted predicate)
-    appl = common.theorem_applicability(work, cases); napp = 0; napp_ok = 0
+    appl = common.theorem_applicability(work, cases); napp = 0; napp_ok = 0; nnorm = 0
     for cid, lines in cases:
         cl, cs = c.get(cid, ([], 'missing'))
         ops = harness.split_ops(lines, cl)
@@ -121,15 +121,15 @@ def run(rep, work, rng, tier):
         if len(snaps) < 2: continue
         s1 = harness.Snap(snaps[-1][1]); compared += 1
         fl = appl.get(cid) or [None]
-        proved = bool(fl[0] and fl[0][0]); napp += proved
+        proved = bool(fl[0] and fl[0][0]); napp += proved; nnorm += bool(proved and fl[0][3] == 0)
         ds = diff_obs(obs(s0), obs(s1, loaded=True))
         if proved and not ds: napp_ok += 1
         for d in ds[:1]:
-            if proved: d += ' (the object meets the hypotheses of C01_decided: the model provably reloads it unchanged)'
+            if proved: d += ' (the object meets the hypotheses of C01_decided / C01_decided_points_only: the model provably reloads it unchanged)'
             comp = d.split(' ')[0]; comps[comp.split('[')[0]] = comps.get(comp.split('[')[0], 0) + 1
             if rep.violation('oracle', 'content differs after save and load: %s' % d,
                              script=[l for l in lines if not l.startswith('fsum')], signature=classify(s0, d)): bad += 1
     rep.coverage.update(dict(evaluations=len(cases), distinct_nontrivial=compared,
         rule='API construction histories (conforming data sets with replacements, extensions, columns, non-integer ratios; parameters of every type with 0..7 dimensions incl. empty ones, descriptions 0..255, lock toggles) saved and loaded by the real library; the canonical content (upper-cased names, right-trimmed strings, DATA_START excluded) before the save and after the load must be equal, floats compared as bit patterns; non-trivial = saved, reloaded and compared',
         samples=[cases[-1][1][-8:]], op_kinds=kinds, failing_components=comps, disagreements=nd, oracle_failures=bad,
-        theorem_C01_decided=dict(objects_compared=compared, hypotheses_hold=napp, of_which_reloaded_equal_in_the_implementation=napp_ok, excluded_by=common.failing_hypotheses(appl))))
+        theorem_C01_decided=dict(objects_compared=compared, hypotheses_hold=napp, of_which_points_only_objects_covered_through_normalisation=nnorm, of_which_reloaded_equal_in_the_implementation=napp_ok, excluded_by=common.failing_hypotheses(appl))))
